@@ -31,6 +31,7 @@ func main() {
 	repo, gen, facts := os.Args[1], os.Args[2], os.Args[3]
 	extractUnescape(repo, gen, facts)
 	extractPaging(repo, gen, facts)
+	extractObjStore(repo, gen, facts)
 	extractReturns(repo, gen, facts)
 	extractC10(repo, gen, facts)
 	extractDbLocks(repo, gen, facts)
@@ -40,4 +41,5 @@ func main() {
 	extractC15Create(repo, gen, facts)
 	extractC09Quirks(repo, gen, facts)
 	extractC16Setters(repo, gen, facts)
+	extractC01Cursors(repo, gen, facts)
 }
